@@ -294,7 +294,7 @@ Qed.
 (* every step of a history keeps the list objects separate *)
 Lemma sep_step st s s' : do_step st s = Ok (tt, s') -> sep s -> sep s'.
 Proof.
-  destruct st as [n es pb|n|t n|n p|n x|n|t]; cbn [do_step]; intros H S.
+  destruct st as [n es pb|n|t n|n p|n x|n|t|k p n]; cbn [do_step]; intros H S.
   - unfold mbind at 1 in H. destruct (Node_child_nodes_obj n s) as [[l s1]| |] eqn:E1; try discriminate.
     unfold mbind at 1 in H. destruct (apply_edits l es s1) as [[[] s2]| |] eqn:E2; try discriminate.
     assert (P : private l s2) by (apply (private_edits _ _ _ _ E2); exact (sep_child_nodes _ _ _ _ E1 S)).
@@ -308,6 +308,9 @@ Proof.
     refine (sep_pres _ _ _ _ _ H (sep_new_node _ _ _ E1 S)). pres_tac. apply pres_add_child.
   - refine (sep_pres _ _ _ _ _ H S). unfold remove_child. pres_tac; apply pres_set_parent_node.
   - exact (sep_new_tree _ _ _ H S).
+  - refine (sep_pres _ _ _ _ _ H S). destruct k; cbn [do_refused].
+    + unfold remove_child. pres_tac; apply pres_set_parent_node.
+    + pres_tac. apply pres_add_child.
 Qed.
 
 Fixpoint run_steps (sts : list step) : M unit :=
